@@ -33,6 +33,72 @@ CLAIMS = {
              "empty, with its topic; with another member present the channel stays; init contains every configured channel with the configured topic/flags/key/limit/lists, empty, marked "
              "preconfigured, rank lists moved to defaults; a joiner of an existing channel gets exactly the ranks the defaults list for its nick.",
         design_ref="5 (C16)"),
+    "C05": dict(
+        technique="Coq proof (global invariant Inv preserved by every step of the server model, by case analysis over all 41 commands and all event kinds; hence run never reaches a Panic, the model's rendering of every unwrap/index/checked-arithmetic abort site) + differential traces with a panic hook and an EOF oracle on the real server",
+        text="Theorems (props/C05.v): for EVERY finite history of events - lines of any content, over-long lines, invalid UTF-8, closes, timer ticks, new connections, on any number of "
+             "connections under any configuration - the model runs to the end without reaching an abort site (C05_no_abort); every reachable world handles every further event (C05_keeps_serving); "
+             "the invariant that makes the 139 inventoried abort sites unreachable holds in every reachable world (C05_invariant: membership stored twice agrees, rank lists mirror flags, counters "
+             "equal true counts so no checked decrement underflows, every registered connection owns its user); an event of connection i leaves every other connection that the step does not close "
+             "exactly as it was (C05_others_untouched). The implementation is tied to the model on every run: any panic in the real server (hook) or any unexpected EOF is a violation.",
+        design_ref="5 (C05)",
+        note="Which endings count as protocol endings (QUIT, 464, KILL/DIE, timeout, bad text, over-long line, connection limit) is fixed by the model's step function and compared with the real server trace by trace; tokio task aborts outside handler code are outside the model."),
+    "C02": dict(
+        technique="Coq proof (ownership clauses of the global invariant; frame theorem for the nick->connection map under a step of another connection; inertness of unregistered connections) + contention traces and an ownership oracle on the real server",
+        text="Theorems (props/C02.v): in every reachable world each registered nick is owned by exactly one live connection, registered under exactly that nick, and every registered connection "
+             "owns the user under its nick (C02_one_owner, C02_connection_owns); whatever connection i sends and however it ends, no OTHER connection gains, loses or changes a nick - except "
+             "that its user disappears when that connection itself is closed by the step (KILL/DIE) (C02_acts_only_as_itself); a connection that is not registered - refused with 433, 464 or a "
+             "mask mismatch, or never completed - leaves the ENTIRE shared state identical whatever it sends and however it ends; the only other outcome is its own accepted registration "
+             "under a nick nobody owned (C02_unregistered_inert).",
+        design_ref="5 (C02)"),
+    "C04": dict(
+        technique="Coq proof (membership symmetry and rank-list clauses of the global invariant in every reachable world; single-operation effect lemmas) + differential traces with a three-view (NAMES/WHO/WHOIS) agreement oracle and an announcement-replay roster oracle",
+        text="Theorems (props/C04.v): in every reachable world the per-user and per-channel membership tables are the same relation, the five rank lists of every channel are exactly the members "
+             "whose rank flag is set, and every member is a registered user owned by a live connection. The effects of JOIN/PART/KICK/NICK/teardown on that relation are the theorems of C07, "
+             "C09, C15, C16 and C06. That the NAMES, WHO and WHOIS texts print this relation, and that announcements reconstruct it, is decided per run by the oracles on real traces (L2).",
+        design_ref="5 (C04)",
+        note="Partial at proof level: the agreement of the three reply texts with the relation is checked by differential execution, not proved."),
+    "C06": dict(
+        technique="Coq proof (full characterisation of VolatileState::remove_user through the channel fold; teardown of a registered / unregistered connection; absent-everywhere corollary of the invariant) + six-way ending sweep with a state-dump oracle on the real server",
+        text="Theorems (props/C06.v): the teardown of a registered connection (the single path of QUIT, EOF, reset, bad text, over-long line, pong timeout, KILL, DIE) deletes exactly its user record - "
+             "so every other record (memberships, modes, invitations) is identical -, removes the nick from the WALLOPS audience, appends one WHOWAS entry, leaves every channel it was not on "
+             "untouched and turns every channel it was on into the same channel minus that member and its rank-list entries, or drops it if that leaves it empty and not preconfigured; the slot "
+             "count decreases by one; a nick without user record is in no roster, rank list or audience; the end of an unregistered connection changes nothing.",
+        design_ref="5 (C06)"),
+    "C08": dict(
+        technique="Coq proof (mode_char / mode_chars frame and effect lemmas, rank sufficiency, refusal inertness) + exhaustive letter x sign x rank sweep against the real server with an announcement-replay oracle",
+        text="Theorems (props/C08.v) for ALL channels, ranks and mode strings: which rank each letter requires, that a refused letter changes nothing, that an accepted flag/rank/list/param letter "
+             "has exactly its documented effect on the channel and nothing else, and that outsiders are refused. The announcement is tied to the effect on every run by replaying the broadcast "
+             "MODE line onto the previous dump and comparing with the new dump.",
+        design_ref="5 (C08)"),
+    "C11": dict(
+        technique="Coq proof (characterisation of OPER, no-grant frame of the user-mode interpreter by induction over mode strings and groups, exact results of KILL/DIE/SQUIT/WALLOPS/STATS per privilege, delivery of pending KILLs) + privilege-level sweep and an operator-status oracle on the real server",
+        text="Theorems (props/C11.v): OPER confers operator status iff the name is configured, the password verifies and the mask matches, touching only the own record; MODE on the own nick with "
+             "any letters/signs/groups changes only the own mode field and never turns an operator flag on; MODE on a foreign nick changes nothing; KILL/DIE/SQUIT/WALLOPS/STATS from an "
+             "unprivileged user give the privilege error and the identical state; permitted KILL marks exactly the named user and the delivery closes exactly the owners of marked users, "
+             "everyone else surviving unchanged; WALLOPS reaches exactly the +w users. That no OTHER handler writes a mode field is checked by state-dump comparison and the oracle (L2).",
+        design_ref="5 (C11)",
+        note="Partial at proof level: the global 'no other command sequence confers operator status' is not a theorem; it is checked on traces."),
+    "C12": dict(
+        technique="Coq proof of the hiding statements that hold (LIST both forms, NAMES contribution, WHO by channel name) and a machine-checked refutation for NAMES with an explicit name + two-world differential check on the real server",
+        text="Theorems (props/C12.v): LIST (explicit and bare) answers an outsider exactly as in the world without the secret channel; NAMES contributes no line for a secret channel to a non-member; "
+             "WHO #secret gives the bare 315 in both worlds. C12_names_explicit_refuted proves that NAMES #secret is silent while NAMES #absent answers 366, for every state: the recorded finding. "
+             "All remaining forms (comma lists, wildcard WHO, WHOIS, invisible users) are decided per run by executing both worlds on the real server and comparing the outsider's view (L2).",
+        design_ref="5 (C12)",
+        note="Partial at proof level (theorem names end in _partial); one known finding, listed in known_findings.json."),
+    "C15": dict(
+        technique="Coq proof (symbolic execution of process_nick through the channel-rename fold; characterisation of the renamed channel) + nick-change sweep with a state-dump oracle on the real server",
+        text="Theorems (props/C15.v) for ALL states satisfying the invariant: an accepted change re-keys the user record with only its source prefix rewritten (owner, modes incl. operator and +w, "
+             "away, memberships, invitations travel), frees the old key, renames the member in place in each of its channels (rank record and rank-list entries follow, other members untouched), "
+             "leaves other channels untouched, re-keys the WALLOPS audience, appends one WHOWAS entry under the old nick, moves no counter, and sends the NICK line with the old source to "
+             "every registered user; a nick held by another user gives exactly 433 and the identical state; the own nick is a no-op; an invalid nick is answered by the parser and never reaches the handler.",
+        design_ref="5 (C15)"),
+    "C19": dict(
+        technique="Coq proof (counter clauses of the global invariant; connection-limit invariant over all histories) + statistics oracle (recount from the dump, high-water mark from the history) and a connection-limit sweep on the real server",
+        text="Theorems (props/C19.v): in every reachable world the invisible and operator counters equal the true counts and the connection counter equals the number of live connections; LUSERS "
+             "therefore prints the actual numbers of users, invisible users, operators and channels; with max_connections = m never more than m connections are live; a closed connection is "
+             "no longer live and the counter stays exact. The high-water mark and the ISON/USERHOST texts are checked per run by the oracle (L2).",
+        design_ref="5 (C19)",
+        note="Partial at proof level: max_users as true high-water mark and ISON/USERHOST are checked on traces, not proved."),
     "C01": dict(
         technique="Coq proof over the handler model (per-target delivery = duplicate-free audience list minus the sender, via Forall2/NoDup) + differential traces and an audience oracle on the implementation's own state",
         text="Theorems (props/C01.v) about the Gallina model of process_privmsg_notice, for ALL shared states, connections, target lists and texts: an accepted channel target queues "
